@@ -384,10 +384,20 @@ def _validate_url(url: str, validator: Callable[[str], None] | None) -> None:
         # its args do not survive in ``__context__``.
         message = str(exc).replace(url, redact_url(url))
         parsed = urlparse(url)
-        secrets = [parsed.username, parsed.password, *(value for _, value in parse_qsl(parsed.query))]
-        for secret in secrets:
-            if secret:
-                message = message.replace(secret, "<redacted>")
+        # The query is scrubbed as a whole, value by value as written (still
+        # percent-encoded) and value by value decoded: a callback may quote any
+        # of those forms.  The fragment can carry bearer data as well.
+        raw_values = [pair.partition("=")[2] for pair in parsed.query.split("&")]
+        secrets = [
+            parsed.query,
+            parsed.fragment,
+            parsed.username,
+            parsed.password,
+            *raw_values,
+            *(value for _, value in parse_qsl(parsed.query)),
+        ]
+        for secret in sorted({s for s in secrets if s}, key=len, reverse=True):
+            message = message.replace(secret, "<redacted>")
         raise ValueError(f"ExternalLocation URL rejected: {message}") from None
 
 
